@@ -375,6 +375,9 @@ def run_case(spec):
     size_dict = dict(spec["size_dict"])
     mode = spec["mode"]
     obs = {"problems": [], "mode": mode}
+    import inspect
+    from cotengra.scoring import LimitObjective
+    obs["limit_ensures"] = "ensure_basic_quantities_are_computed" in inspect.getsource(LimitObjective.__call__)
     minimize = CUSTOM.get(spec["minimize"], spec["minimize"])
     kw = dict(spec["opts"])
     instrument = mode in ("serial", "scripted")
@@ -695,21 +698,21 @@ OPT_STAGES = [("simulated_annealing_opts", "Anneal"), ("slicing_opts", "Slice"),
               ("slicing_reconf_opts", "SliceReconf"), ("reconf_opts", "Reconf")]
 
 
-def objective_kind(minimize):
+def objective_kind(minimize, limit_ensures=False):
     if minimize.startswith("limit"):
-        return "ObjLimit"
+        return "(ObjLimit %s)" % ("true" if limit_ensures else "false")
     if minimize == "custom-bare":
         return "ObjCustom"
     return "ObjBasic"
 
 
-def pipeline_case(spec, t):
+def pipeline_case(spec, t, limit_ensures=False):
     """Coq lhs/rhs for one recorded trial: the model's trial_fn fed with the recorded stage
     outcomes must give the recorded dict.  Tree states are version numbers: 0 = the path
     finder's tree, i = after the i-th executed stage."""
     opts = spec["opts"]
     em = {"warn": "ErrWarn", "raise": "ErrRaise", "ignore": "ErrIgnore"}[spec["on_trial_error"]]
-    obj = objective_kind(spec["minimize"])
+    obj = objective_kind(spec["minimize"], limit_ensures)
     op = "(mkOpts %s %s %s %s false)" % tuple("true" if k in opts else "false" for k, _ in OPT_STAGES)
     versions = []       # stats per version
     posts = []          # per executed stage: ('ok') | 'bad' | 'err'
@@ -1139,7 +1142,7 @@ def run(ctx):
                 ctx.fail("post-processing stages ran as %r, setup() was given %r" % (got_stages, want_stages),
                          {"spec": spec, "label": label, "trial": t}, found_input=False)
                 continue
-            pc = pipeline_case(spec, t)
+            pc = pipeline_case(spec, t, obs.get("limit_ensures", False))
             if pc is None:
                 continue
             pipe_cases.append(("%s:trial%d" % (label, t["k"]), pc[0], pc[1]))
